@@ -242,6 +242,8 @@ class Types:
                     acc.setdefault(n.target.id, []).append(self.ann(n.annotation, f.module))
                 elif isinstance(n, ast.Assign):
                     vt = self.expr_type(n.value, f, self_cls, env)
+                    if isinstance(n.value, ast.Name) and _guarded_not_none(n, n.value.id, f.node):
+                        vt = union([m for m in members(vt) if m != NONE]) if [m for m in members(vt) if m != NONE] else vt
                     for tg in n.targets:
                         self._bind(tg, vt, acc)
                 elif isinstance(n, ast.NamedExpr) and isinstance(n.target, ast.Name):
@@ -531,6 +533,22 @@ class Types:
             else:
                 out.append(ANY)
         return union(out)
+
+
+def _guarded_not_none(stmt: ast.AST, name: str, top: ast.AST) -> bool:
+    """`stmt` stands in the body of an `if` whose test has the conjunct `name is not None` (or `name` itself)."""
+    child = stmt
+    par = getattr(stmt, "_parent", None)
+    while par is not None and par is not top:
+        if isinstance(par, ast.If) and any(child is b for b in par.body):
+            conj = par.test.values if isinstance(par.test, ast.BoolOp) and isinstance(par.test.op, ast.And) else [par.test]
+            for c in conj:
+                if isinstance(c, ast.Compare) and len(c.ops) == 1 and isinstance(c.ops[0], ast.IsNot) and isinstance(c.left, ast.Name) and c.left.id == name and isinstance(c.comparators[0], ast.Constant) and c.comparators[0].value is None:
+                    return True
+                if isinstance(c, ast.Name) and c.id == name:
+                    return True
+        child, par = par, getattr(par, "_parent", None)
+    return False
 
 
 def _is_self_attr(node: ast.AST, attr: str) -> bool:
